@@ -16,6 +16,11 @@ def convert_code_string(code: str, filename="<string>", configs: Configs | None 
     if configs is None:
         configs = Configs()
 
+    # Let CPython refuse what it refuses (break/continue outside a loop,
+    # return outside a function, ...): the lowering never visits statements
+    # after a return/break/continue, so it cannot notice them there.
+    compile(code, filename, "exec", dont_inherit=True)
+
     ast_root = ast.parse(code, filename, "exec")
     symtable_root = symtable.symtable(code, filename, "exec")
     out = convert(ast_root, symtable_root, configs)
